@@ -1,6 +1,7 @@
 pub mod axb;
 pub mod axfam;
 pub mod axnl;
+pub mod axpad;
 pub mod funfam;
 pub mod funlang;
 pub mod corefam;
